@@ -480,6 +480,23 @@ func (a *vAckWorld) snap(final bool) {
 		}
 	}
 	ev["empty"] = empty
+	// state class of every key's value: none (no value object) / unset (object present, marked unset) / value / props (value
+	// with a property header)
+	vcls := [][]interface{}{}
+	for _, k := range ev["keys"].([]vKeySnap) {
+		c := "none"
+		if k.HasData {
+			c = "unset"
+			if len(k.Data) >= 12 {
+				c = "value"
+				if b, err := hex.DecodeString(k.Data[10:12]); err == nil && b[0]&0x10 != 0 {
+					c = "props"
+				}
+			}
+		}
+		vcls = append(vcls, []interface{}{int64(k.Db), k.Key, c})
+	}
+	ev["vcls"] = vcls
 	if final {
 		ev["final"] = true
 	}
@@ -549,11 +566,60 @@ func (a *vAckWorld) issue(s *vAckStep) {
 		a.ackReq[id] = true
 		a.mu.Unlock()
 	}
-	a.tr.Emit(a.reqEvent(id, r))
+	rev := a.reqEvent(id, r)
+	// the value operation of the request, decoded (for the record only: which kind of operation a judged request carried)
+	op, subs := vAckDecodeOp(r.Data)
+	rev["dop"], rev["dsubs"] = op, subs
+	a.tr.Emit(rev)
 	a.curReq = id
 	a.Issue(id, r)
 	a.curReq = -1
 	a.tr.Emit(map[string]interface{}{"e": "ret", "id": id, "t": a.sec(), "ms": a.ms()})
+}
+
+var vAckOpNames = map[int]string{0: "SET", 1: "UNSET", 2: "INCR", 3: "APPEND", 4: "SHIFT", 5: "EXECUTE", 6: "PIPELINE", 7: "PUSH", 8: "POP"}
+
+// operation name of a value frame (hex) and, for a PIPELINE, of its sub-frames (nested pipelines flattened)
+func vAckDecodeOp(h string) (string, []string) {
+	subs := []string{}
+	b, err := hex.DecodeString(h)
+	if err != nil || len(b) < 6 {
+		return "", subs
+	}
+	name := func(c byte) string {
+		if n, ok := vAckOpNames[int(c&0x3f)]; ok {
+			return n
+		}
+		return fmt.Sprintf("OP%d", int(c&0x3f))
+	}
+	var walk func(f []byte)
+	walk = func(f []byte) {
+		off := 6
+		if f[5]&0x10 != 0 && len(f) >= 8 {
+			off = 8 + int(f[6]) + int(f[7])<<8
+		}
+		if off > len(f) {
+			return
+		}
+		pl := f[off:]
+		for i := 0; i+4 <= len(pl); {
+			n := int(pl[i]) | int(pl[i+1])<<8 | int(pl[i+2])<<16 | int(pl[i+3])<<24
+			if n < 2 || i+4+n > len(pl) {
+				break
+			}
+			sf := pl[i : i+4+n]
+			if sf[4]&0x3f == 6 {
+				walk(sf)
+			} else {
+				subs = append(subs, name(sf[4]))
+			}
+			i += 4 + n
+		}
+	}
+	if b[4]&0x3f == 6 {
+		walk(b)
+	}
+	return name(b[4]), subs
 }
 
 func (a *vAckWorld) tick(n int, snapEach bool) {
